@@ -194,6 +194,8 @@ func (e *Exec) safeStep(s *State) (res stepResult) {
 					}()
 					res = e.concretize(s, x)
 				}()
+			case string:
+				panic(x + " at " + e.where(s))
 			default:
 				panic(r)
 			}
